@@ -58,6 +58,7 @@ func run(t *testing.T, idx int64, r *rand.Rand, kindIdx, cmIdx, amIdx int, exhau
 	expectRefusedAt := true // false: the call must stay blocked (no bound applies)
 	expectGrant := false
 	var busyBefore, busyAfter int
+	viaDeadline := false
 	bubble(t, func(t *testing.T) {
 		w := blk.NewWorld(k, 1)
 		var held = w.Hold(0)
@@ -142,9 +143,12 @@ func run(t *testing.T, idx int64, r *rand.Rand, kindIdx, cmIdx, amIdx int, exhau
 			}
 		}
 		busyBefore = w.Strat.GetBusyCount()
+		viaDeadline = cancelAt > arrive && r.IntN(2) == 0 // the context ends by its own deadline instead of an explicit cancel
 		if cm == "before-arrival" {
 			// spawn with an already-cancelled context
 			wt = spawnCancelled(w)
+		} else if viaDeadline {
+			wt = w.SpawnDeadline(cancelAt)
 		} else {
 			wt = w.Spawn()
 			if cm == "at-arrival" {
@@ -155,7 +159,11 @@ func run(t *testing.T, idx int64, r *rand.Rand, kindIdx, cmIdx, amIdx int, exhau
 		if cancelAt > arrive {
 			time.Sleep(cancelAt - w.Now())
 			// at-bound: the timer of the call and this goroutine wake at the same virtual instant
-			w.CancelWaiter(wt)
+			if !viaDeadline {
+				w.CancelWaiter(wt)
+			} else {
+				w.Tracef("context deadline of waiter %d reached", wt.ID)
+			}
 			w.Quiesce()
 		}
 		horizon := expected
@@ -179,6 +187,10 @@ func run(t *testing.T, idx int64, r *rand.Rand, kindIdx, cmIdx, amIdx int, exhau
 	})
 	rt.Count("scenarios", 1)
 	rt.Count("family/"+k.Family, 1)
+	if viaDeadline {
+		rt.Count("contexts_ending_by_their_own_deadline", 1)
+		sc.CancelMode += "(context deadline)"
+	}
 	fail := func(sig string, extra rt.J) {
 		extra["scenario"], extra["expected_return_at"], extra["returned_at"], extra["returned"], extra["ok"], extra["trace"] = sc, expected.String(), wt.Returned.String(), wt.Done(), wt.OK, trace
 		extra["snapshot"] = snap
@@ -242,6 +254,107 @@ func run(t *testing.T, idx int64, r *rand.Rand, kindIdx, cmIdx, amIdx int, exhau
 	}
 }
 
+// twoWaiters: capacity 1 exhausted, two callers blocked, one release strictly before every bound; the winner keeps the
+// token, the loser must still be refused at exactly its own bound (not at a bound re-armed by the wake-up it lost).
+func twoWaiters(t *testing.T, idx int64, r *rand.Rand, kindIdx int) {
+	T := time.Duration(20+r.IntN(2000)) * time.Millisecond
+	k := kinds(r, T)[kindIdx]
+	var trace []string
+	var loser *blk.Waiter
+	var expected time.Duration
+	var snap blk.Snapshot
+	stillBlockedIsRight := false
+	var a [2]time.Duration
+	var rel, cancelAt time.Duration
+	bubble(t, func(t *testing.T) {
+		w := blk.NewWorld(k, 1)
+		held := w.Hold(1)
+		a[0] = time.Duration(r.Int64N(int64(T) / 8))
+		a[1] = a[0] + 1 + time.Duration(r.Int64N(int64(T)/8))
+		rel = a[1] + 1 + time.Duration(r.Int64N(int64(T)/4))
+		time.Sleep(a[0])
+		w0 := w.Spawn()
+		w.Quiesce()
+		time.Sleep(a[1] - w.Now())
+		w1 := w.Spawn()
+		w.Quiesce()
+		time.Sleep(rel - w.Now())
+		w.Release(held[0], []string{"success", "ignore", "dropped"}[r.IntN(3)])
+		held = nil
+		w.Quiesce()
+		switch {
+		case w0.Done() && w0.OK && !w1.Done():
+			loser = w1
+		case w1.Done() && w1.OK && !w0.Done():
+			loser = w0
+		default:
+			rt.Violation(fmt.Sprintf("C13/%s/two-waiters/release-did-not-grant-exactly-one", k), idx, rt.J{"trace": w.Trace()})
+			w.Teardown(nil)
+			return
+		}
+		switch k.Family {
+		case "queue":
+			expected = loser.Arrived + T
+		case "deadline":
+			expected = T
+		default: // blocking: only cancellation bounds it
+			cancelAt = rel + 1 + time.Duration(r.Int64N(int64(T)))
+			expected = cancelAt
+			if r.IntN(3) == 0 {
+				cancelAt, stillBlockedIsRight = 0, true
+				expected = rel + 2*T
+			}
+		}
+		if cancelAt > 0 {
+			time.Sleep(cancelAt - w.Now())
+			w.CancelWaiter(loser)
+			w.Quiesce()
+		}
+		if expected+1 > w.Now() {
+			time.Sleep(expected + 1 - w.Now())
+		}
+		w.Quiesce()
+		snap = w.Snap("after-the-losers-bound")
+		w.Teardown(nil)
+		trace = w.Trace()
+	})
+	if loser == nil {
+		return
+	}
+	rt.Count("two_waiter_scenarios", 1)
+	fail := func(sig string) {
+		rt.Violation(fmt.Sprintf("C13/%s/two-waiters/%s", k, sig), idx, rt.J{"kind": k, "arrivals": []string{a[0].String(), a[1].String()}, "release_at": rel.String(),
+			"loser": loser.ID, "expected_return_at": expected.String(), "returned_at": loser.Returned.String(), "returned": loser.Done(), "ok": loser.OK, "snapshot": snap, "trace": trace})
+	}
+	stillIn := false
+	for _, id := range append(append([]int{}, snap.Blocked...), snap.GivingUp...) {
+		if id == loser.ID {
+			stillIn = true
+		}
+	}
+	switch {
+	case stillBlockedIsRight:
+		if !stillIn {
+			fail("loser-returned-although-no-bound-applies")
+			return
+		}
+	case stillIn:
+		fail("loser-blocked-past-its-bound")
+		return
+	case loser.OK:
+		fail("loser-granted-although-the-winner-still-holds-the-token")
+		return
+	case loser.Returned != expected:
+		if loser.Returned < expected {
+			fail("loser-returned-before-its-bound")
+		} else {
+			fail("loser-returned-after-its-bound")
+		}
+		return
+	}
+	rt.Distinct(fmt.Sprintf("two|%s|%v|%v|%v", k, a, rel, cancelAt))
+}
+
 // spawnCancelled starts a caller whose context is cancelled before Acquire is called.
 func spawnCancelled(w *blk.World) *blk.Waiter {
 	wt := w.SpawnWith(func(ctx context.Context, cancel context.CancelFunc) { cancel() })
@@ -271,6 +384,10 @@ func TestCheck(t *testing.T) {
 	rt.Cases(len(cells)*20, len(cells)*5000, func(idx int64) {
 		r := rt.CaseRand(13, idx)
 		rt.Case()
+		if idx%9 == 8 {
+			twoWaiters(t, idx, r, r.IntN(7))
+			return
+		}
 		c := cells[int(idx)%len(cells)]
 		run(t, idx, r, c.k, c.c, c.a, c.ex)
 	})
